@@ -31,7 +31,12 @@ const (
 var AllPerms = []Perm{None, Reader, Writer, Admin, Owner, Guest}
 
 func PermName(p Perm) string {
-	return [...]string{"None", "Owner", "Admin", "Writer", "Reader", "Guest"}[p]
+	names := [...]string{"None", "Owner", "Admin", "Writer", "Reader", "Guest"}
+	if p < 0 || int(p) >= len(names) {
+		// a level the protocol does not define (the field is a plain varint on the wire)
+		return fmt.Sprintf("Undefined(%d)", int32(p))
+	}
+	return names[p]
 }
 
 type Account struct {
